@@ -34,7 +34,8 @@ for _n, _spec in LEAVES.items():
     register(leaf, id=f"C16.leaf.{_n}", prop="C16",
              target=closure("microjs.vm", "VM._make_string_method", INNER.get(_n, _n)),
              env=("s",), native=_native(_n), summaries=SUMM, bind={"SPEC": _spec},
-             timeout_ms=(45000 if _n in ("slice", "lastIndexOf", "substring") else 10000))
+             timeout_ms=(45000 if _n in ("slice", "lastIndexOf", "substring") else 10000),
+             quick=(_n != "slice"))      # (slice: the solvers decide its obligation in 40-250 s or not at all, depending on load: thorough tier only)
 
 
 # ---- bounded: the methods whose pattern is a STRING and that loop over the receiver (split, replace, replaceAll, concat) ----
